@@ -372,6 +372,10 @@ class Engine:
                     # std::vector<bool> read-modify-writes whole words of fresh storage: the unset bits are arbitrary
                     self.fresh_n = getattr(self, "fresh_n", 0) + 1
                     return z3.BitVec("uninit_word_%d" % self.fresh_n, ty.bits)
+                if o.kind == "stack" and k in ("int", "fp", "ptr"):
+                    # LLVM semantics: a load from an uninitialised alloca yields undef (the optimiser hoists such loads);
+                    # it is only an error if the value is then used (branch, arithmetic, store to memory that is read)
+                    return UNDEF
                 raise MemError("read of uninitialised memory %s+%d (%s)" % (o.name or o.id, off, ty.s()))
             bs = [0 if b is None else b for b in bs]
         if all(isinstance(b, int) for b in bs):
